@@ -81,5 +81,45 @@ Proof.
   apply (check_shift_sound i _ _ _ _ Hv) in H1, H2, H3. apply String.eqb_eq in H4, H5. congruence.
 Qed.
 
+(* History entries.  The property quantifies over every history of exported calls: before the shift is asked for, the caller may have parsed
+   the same string itself (object.NewExtendedSpatialID) and changed ITS OWN object with the exported mutators.  The last argument of these
+   entries is that prelude, a list of operations
+       [SetX n] [SetY n] [SetZ n] [SetZoom h v] [ResetExtendedSpatialID s]
+   which the invoker performs on its own parse of the ID string immediately before the call of the plain entry (law entry: before each of
+   the three calls that are given the string id).  The prelude is data of
+   the case (replays are exact); the model is a function of the string and the shift alone, so the verdict is that of the plain entry
+   (with_prelude_verdict).  A prelude of another shape is a bad case, never a pass. *)
+Definition op_ok (v : val) : bool :=
+  match v with
+  | VL [VS name; VZ n] => existsb (String.eqb name) ["SetX"; "SetY"; "SetZ"] && int64_ok n
+  | VL [VS name; VZ h; VZ v] => String.eqb name "SetZoom" && int64_ok h && int64_ok v
+  | VL [VS name; VS _] => String.eqb name "ResetExtendedSpatialID"
+  | _ => false
+  end.
+Definition prelude_ok (p : val) : bool := match p with VL l => forallb op_ok l | _ => false end.
+(* k = number of arguments of the plain entry; the prelude follows them *)
+Definition with_prelude (k : nat) (d : list val -> val -> verdict) (args : list val) (obs : val) : verdict :=
+  match skipn k args with
+  | [p] => if prelude_ok p then d (firstn k args) obs else bad_case
+  | _ => bad_case
+  end.
+Definition d_shift_hist := with_prelude 4 d_shift.
+Definition d_shift_laws_hist := with_prelude 7 d_shift_laws.
+
+(* whatever the caller did to its own parsed object, the expected answer and the verdict are those of the plain call *)
+Theorem with_prelude_verdict k d args p obs : length args = k -> prelude_ok p = true ->
+  with_prelude k d (args ++ [p]) obs = d args obs.
+Proof.
+  intros Hk Hp. unfold with_prelude. subst k.
+  rewrite skipn_app, skipn_all, Nat.sub_diag, firstn_app, firstn_all, Nat.sub_diag. cbn. rewrite Hp, app_nil_r. reflexivity.
+Qed.
+Theorem shift_history_independent id dx dy dv p obs : prelude_ok p = true ->
+  d_shift_hist [VS id; VZ dx; VZ dy; VZ dv; p] obs = d_shift [VS id; VZ dx; VZ dy; VZ dv] obs.
+Proof. intros Hp. exact (with_prelude_verdict 4 d_shift [VS id; VZ dx; VZ dy; VZ dv] p obs eq_refl Hp). Qed.
+Theorem shift_laws_history_independent id a1 a2 a3 b1 b2 b3 p obs : prelude_ok p = true ->
+  d_shift_laws_hist [VS id; VZ a1; VZ a2; VZ a3; VZ b1; VZ b2; VZ b3; p] obs = d_shift_laws [VS id; VZ a1; VZ a2; VZ a3; VZ b1; VZ b2; VZ b3] obs.
+Proof. intros Hp. exact (with_prelude_verdict 7 d_shift_laws [VS id; VZ a1; VZ a2; VZ a3; VZ b1; VZ b2; VZ b3] p obs eq_refl Hp). Qed.
+
 Definition table_C07 : table :=
-  [("GetShiftingSpatialID", fun _ => d_shift); ("ShiftLaws", fun _ => d_shift_laws)].
+  [("GetShiftingSpatialID", fun _ => d_shift); ("ShiftLaws", fun _ => d_shift_laws);
+   ("GetShiftingSpatialIDAfterOwnMutation", fun _ => d_shift_hist); ("ShiftLawsAfterOwnMutation", fun _ => d_shift_laws_hist)].
